@@ -125,12 +125,16 @@ func (c *c12Oracle) Check(w *World, o *Obs) []Violation {
 		if st.Kind == "sms_validate" {
 			if accepted {
 				w.Stats.Reach["c12_sms_accepted"]++
-				if !(code.Known != nil && code.Known.Kind == "sms" && code.Known.Browser == st.B && usable(code.Status)) {
+				if !(code.Known != nil && code.Known.Kind == "sms" && code.Known.Browser == st.B && usable(code.Status)) ||
+					code.Known.Acct >= 0 && code.Known.Acct != a {
 					stt := "unknown"
 					if code.Known != nil {
 						stt = code.Status
 						if code.Known.Browser != st.B {
 							stt = "foreign_session"
+						} else if code.Known.Acct >= 0 && code.Known.Acct != a {
+							// sent to the phone of another account
+							stt = "foreign_account"
 						}
 					}
 					out = append(out, viol("C12", "sms_accepted", st.Kind, o,
